@@ -1028,6 +1028,11 @@ class Interp:
             if isinstance(l, (Poly, int)) and isinstance(r, (Poly, int)) and not as_poly(l).vars() and not as_poly(r).vars():
                 same = (as_poly(l) - as_poly(r)).is_zero()
                 return same if op == "==" else not same
+            try:
+                if isinstance(l, (VOpaque, Sym)) and isinstance(r, (VOpaque, Sym)) and canon(l) == canon(r) and "havoc:" not in canon(l):
+                    return op == "=="           # the same symbolic term on both sides
+            except Exception:
+                pass
             return VOpaque("ne" if op == "!=" else "eq", [l, r])
         if op in ("<", "<=", ">", ">=") and isinstance(l, int) and isinstance(r, int):
             return {"<": l < r, "<=": l <= r, ">": l > r, ">=": l >= r}[op]
@@ -1398,10 +1403,23 @@ class Interp:
             return not self.decide(VOpaque("eq", list(c.args)))      # one atom per fact: no infeasible eq/ne combinations
         if isinstance(c, VOpaque) and c.name == "not" and len(c.args) == 1 and isinstance(c.args[0], (VOpaque, Sym)):
             return not self.decide(c.args[0])
+        if isinstance(c, VOpaque) and c.name == "eq" and len(c.args) == 2:
+            try:
+                if canon(c.args[0]) > canon(c.args[1]):
+                    c = VOpaque("eq", [c.args[1], c.args[0]])        # equality is symmetric: ONE atom for `a == b` and `b == a`
+            except Exception:
+                pass
         key = canon(c)
         for c0, t0 in self.path_conds:
             if canon(c0) == key:
                 return t0
+        if isinstance(c, VOpaque) and c.name == "eq" and len(c.args) == 2:
+            # equality is an equivalence relation: what the earlier decisions of this path already imply is not decided again
+            # (no infeasible combination such as a == b, a == c, b != c is ever explored)
+            implied = self._eq_implied(canon(c.args[0]), canon(c.args[1]))
+            if implied is not None:
+                self.path_conds.append((c, implied))
+                return implied
         k = self.dec_idx
         self.dec_idx += 1
         if k >= len(self.decisions):
@@ -1409,6 +1427,37 @@ class Interp:
         take = self.decisions[k]
         self.path_conds.append((c, take))
         return take
+
+    def _eq_implied(self, x, y):
+        parent = {}
+
+        def find(a):
+            parent.setdefault(a, a)
+            while parent[a] != a:
+                parent[a] = parent[parent[a]]
+                a = parent[a]
+            return a
+        neq = []
+        for c0, t0 in self.path_conds:
+            if isinstance(c0, VOpaque) and c0.name == "eq" and len(c0.args) == 2:
+                try:
+                    a, b = canon(c0.args[0]), canon(c0.args[1])
+                except Exception:
+                    continue
+                if t0:
+                    ra, rb = find(a), find(b)
+                    if ra != rb:
+                        parent[ra] = rb
+                else:
+                    neq.append((a, b))
+        rx, ry = find(x), find(y)
+        if rx == ry:
+            return True
+        for a, b in neq:
+            ra, rb = find(a), find(b)
+            if (ra == rx and rb == ry) or (ra == ry and rb == rx):
+                return False
+        return None
 
     def e_match(self, e, env):
         v = self.expr(e["e"], env)
@@ -1427,6 +1476,31 @@ class Interp:
                 env2 = dict_child(env)
                 self.bind(some[0]["pat"]["elems"][0], VOpaque("some_of", [v]), env2)
                 return self.expr(some[0]["body"], env2)
+        def _pat_text(p_):
+            k_ = p_.get("k")
+            if k_ == "lit":
+                return p_.get("text", "?").replace(" ", "")
+            if k_ in ("slice", "tuple"):
+                return "[" + ",".join(_pat_text(x) for x in p_["elems"]) + "]"
+            if k_ == "range":
+                return f"{p_.get('lo')}..{'=' if p_.get('closed') else ''}{p_.get('hi')}"
+            if k_ == "or":
+                return "|".join(_pat_text(x) for x in p_["cases"])
+            return None
+        symbolic = isinstance(v, (Sym, Poly)) or (isinstance(v, VOpaque) and v.args and not concrete_opt and "::" not in v.name)
+        if symbolic and all(a["guard"] is None for a in arms) and all(a["pat"]["k"] in ("wild", "ident") or _pat_text(a["pat"]) for a in arms):
+            # a symbolic scrutinee against literal patterns: the arms are tried in order, each test forks the path
+            for arm in arms:
+                pk = arm["pat"]["k"]
+                if pk == "wild" or (pk == "ident" and arm["pat"].get("name")):
+                    env2 = env
+                    if pk == "ident":
+                        env2 = dict_child(env)
+                        self.bind(arm["pat"], v, env2)
+                    return self.expr(arm["body"], env2)
+                if self.decide(VOpaque("matches", [v, VOpaque("pattern:" + _pat_text(arm["pat"]))])):
+                    return self.expr(arm["body"], env)
+            self.fail(e, "no match arm applies")
         if not isinstance(v, (VOpaque, bool, int)):
             self.fail(e, "match on a symbolic value")
         v = _deref(v)
@@ -2003,6 +2077,21 @@ class Interp:
             if fname.split("::")[-1] in PURE_GETTERS and "::" in fname:
                 fname = fname.split("::")[-1]        # `u64::to_be_bytes` as a function value == the method `.to_be_bytes()`
             return VSymIter.mapped(recv, VOpaque(fname, [recv.elem]))
+        if m == "take_while" and isinstance(recv, (VIter, VArr)) and len(args) == 1 and isinstance(args[0], VClosure):
+            # on a collection of KNOWN length: the longest prefix whose elements satisfy the predicate (symbolic tests fork the path)
+            out_ = []
+            for x_ in recv.items:
+                c_ = self.call_closure(args[0], [x_])
+                if not isinstance(c_, bool):
+                    if not isinstance(c_, (VOpaque, Sym)):
+                        self.fail(e, "take_while with a non-boolean predicate")
+                    c_ = self.decide(c_)
+                if not c_:
+                    break
+                out_.append(x_)
+            return VIter(out_)
+        if m == "count" and isinstance(recv, (VIter, VArr)) and not args:
+            return len(recv.items)
         if m == "flat_map" and isinstance(recv, VSymIter) and isinstance(args[0], VClosure) and not getattr(recv, "pending", None):
             # flat_map over a collection of unknown length: the concatenation, in order, of f(x) for every element x (f without trace effects)
             saved = self.ctx.log
@@ -2433,6 +2522,14 @@ class Interp:
         if isinstance(recv, Sym) and recv.path.startswith("self.") and recv.path.count(".") == 1 and (m in READONLY_METHODS or m.startswith("is_")) \
                 and m not in ("iter", "clone", "copied", "cloned", "to_vec", "as_slice"):
             return VOpaque(f"{recv.path}.{m}", list(args))       # a READ of a field of `self`: an uninterpreted function of that field
+        if isinstance(recv, Sym) and recv.path.startswith("self.") and recv.path.count(".") == 1 and not m.startswith("is_") \
+                and m not in READONLY_METHODS and getattr(self, "helper_files", None) and getattr(self, "file_root", None):
+            # a method of the field's own (crate) type whose body is available in the unit's helper files: its real body first
+            ast_h, _w = self.find_helper(m, True)
+            if ast_h is not None:
+                r = self.inline_method(recv, m, args, type_name="__helper__")
+                if r is not NotImplemented:
+                    return r
         if isinstance(recv, Sym) and recv.path.startswith("self.") and recv.path.count(".") == 1 and not m.startswith("is_") \
                 and m not in READONLY_METHODS and getattr(self, "trace_fields", True):
             # an unknown (possibly mutating) method on a field of `self`: an uninterpreted EFFECT on that field, recorded in the trace
@@ -3008,6 +3105,10 @@ def _run_unit(root, unit, contracts, seed=0, perturb=None):
             dec[canon(c)] = t
             if isinstance(c, VOpaque) and c.name == "eq" and len(c.args) == 2:
                 dec[canon(VOpaque("ne", list(c.args)))] = not t
+                # equality atoms are stored with their operands in canonical order: contracts may ask with either orientation
+                rev = [c.args[1], c.args[0]]
+                dec[canon(VOpaque("eq", rev))] = t
+                dec[canon(VOpaque("ne", rev))] = not t
         it2.decided = lambda key: dec.get(key)
         it2.decided_keys = sorted(dec)
         plist = unit.closure_params if unit.closure else unit.params
@@ -3050,7 +3151,8 @@ def _run_unit(root, unit, contracts, seed=0, perturb=None):
                 # a path whose condition compares COMPILE-TIME CONSTANTS of unknown value (`Type::CONST` of a dependency) may be
                 # infeasible: nothing observed on it is evidence about the code
                 import re as _re
-                consts_in_pc = [x for c_, _t in pcs for x in _value_vars(c_) if _re.fullmatch(r"[A-Za-z_]\w*::[A-Z][A-Z0-9_]*", x)]
+                consts_in_pc = [x for c_, _t in pcs for x in _value_vars(c_) if _re.fullmatch(r"[A-Za-z_]\w*::[A-Z][A-Z0-9_]*", x)
+                                and x.split("::")[0] not in ("WiredWitness", "Selector", "WireData", "PlonkVersion")]      # enum variants are not constants of unknown value
                 if consts_in_pc:
                     und = True
                     detail = f"on the path [{pc_txt}] (feasibility depends on the constant(s) {sorted(set(consts_in_pc))} whose value is not known to the checker): {detail}"
@@ -3194,7 +3296,22 @@ def _apply_rules(v, rules):
             return VOk(go(x.v))
         if isinstance(x, VStruct):
             return VStruct(x.name, {k: go(y) for k, y in x.fields.items()})
+        if isinstance(x, str) and renames:
+            # trace events carry canonical TEXT: an equality `term1 == term2` decided true renames term1 to term2 in it
+            for old_, new_ in renames:
+                if old_ in x:
+                    x = x.replace(old_, new_)
+            return x
         return x
+    # substitutions of one symbol by another symbol (x := y): also applicable to canonical text
+    renames = []
+    for r in rules:
+        if r[0] == "sub":
+            n_ = as_poly(r[2]).norm()
+            if len(n_) == 1:
+                (m_, c_), = n_.items()
+                if c_ == 1 and len(m_) == 1 and m_[0][1] == 1 and len(r[1]) > 3:
+                    renames.append((r[1], m_[0][0]))
     return go(v)
 
 
